@@ -1,0 +1,48 @@
+//go:build verif
+
+// Contracts for the deductive checks under /verif (comment-only; no code).
+
+package wantlist
+
+// ---- C35: the want-list keeps, per CID, the strongest requested type ---------------------------
+// want-block is stronger than want-have: adding a want-have never weakens a want-block, a cancel of
+// want-have never removes a want-block; every change drops the cached sorted view.
+//@ macro wf(w) = w != nil && w.set != nil
+//@ func (*Wantlist).Add
+//@   prop C35
+//@   arith int
+//@   requires[wf] wf(w)
+//@   modifies mapof(w.set), w.cached
+//@   ensures[present_afterwards] has(w.set, c)
+//@   ensures[new_entry_as_given] !old(has(w.set, c)) ==> result && w.set[c].Cid == c && w.set[c].Priority == priority && w.set[c].WantType == wantType
+//@   ensures[block_is_never_weakened] old(has(w.set, c)) && old(w.set[c].WantType) == pb.Message_Wantlist_Block ==> !result && w.set[c] == old(w.set[c])
+//@   ensures[have_does_not_replace] old(has(w.set, c)) && wantType == pb.Message_Wantlist_Have ==> !result && w.set[c] == old(w.set[c])
+//@   ensures[have_is_upgraded_to_block] old(has(w.set, c)) && old(w.set[c].WantType) != pb.Message_Wantlist_Block && wantType != pb.Message_Wantlist_Have ==> result && w.set[c].WantType == wantType && w.set[c].Priority == priority
+//@   ensures[change_drops_the_cache] result ==> len(w.cached) == 0
+//@ func (*Wantlist).RemoveType
+//@   prop C35
+//@   arith int
+//@   requires[wf] wf(w)
+//@   modifies mapof(w.set), w.cached
+//@   ensures[absent_is_not_removed] !old(has(w.set, c)) ==> !result && !has(w.set, c)
+//@   ensures[have_cancel_keeps_block] old(has(w.set, c)) && old(w.set[c].WantType) == pb.Message_Wantlist_Block && wantType == pb.Message_Wantlist_Have ==> !result && has(w.set, c) && w.set[c] == old(w.set[c])
+//@   ensures[otherwise_removed] old(has(w.set, c)) && !(old(w.set[c].WantType) == pb.Message_Wantlist_Block && wantType == pb.Message_Wantlist_Have) ==> result && !has(w.set, c)
+//@   ensures[change_drops_the_cache] result ==> len(w.cached) == 0
+//@ func (*Wantlist).Remove
+//@   prop C35
+//@   arith int
+//@   requires[wf] wf(w)
+//@   modifies mapof(w.set), w.cached
+//@   ensures[removed] !has(w.set, c) && len(w.cached) == 0
+//@ func (*Wantlist).Has
+//@   prop C35
+//@   arith int
+//@   requires[wf] wf(w)
+//@   modifies nothing
+//@   ensures[membership] result == has(w.set, c)
+//@ func (*Wantlist).Get
+//@   prop C35
+//@   arith int
+//@   requires[wf] wf(w)
+//@   modifies nothing
+//@   ensures[entry_of_the_cid] result1 == has(w.set, c) && (result1 ==> result0 == w.set[c])
